@@ -193,6 +193,17 @@ CHECKS.update({
                 ref="5/C14", note=E4_NOTE),
 })
 
+CHECKS.update({
+    "C15": dict(engine="E1", technique="explicit-state exploration of the real simulator "
+                "over all Clockwork arrival histories (release x deadline-class vectors, "
+                "models, loading states, goals), per-invocation batch oracle",
+                text="Every batch: one model, size = batch size of the chosen strategy, "
+                     "on a worker where the model is loaded (shadow of load/evict/step) "
+                     "and that can hold it, now + runtime <= earliest deadline; each "
+                     "request placed at most once; hopeless requests cancelled in that "
+                     "invocation and never placed.", ref="5/C15", note=E1_NOTE),
+})
+
 NOT_YET = {}
 
 
@@ -263,7 +274,7 @@ ENGINES = [
     {"name": "E3", "path": "vf/checks/c17.py", "serves_properties": ["C13", "C16", "C17", "C19"],
      "kind_free_text": "exhaustive input enumeration of pure functions vs brute force"},
     {"name": "E1", "path": "vf/e1.py", "serves_properties":
-        ["C01", "C02", "C03", "C05", "C06", "C07", "C08", "C18", "C19"],
+        ["C01", "C02", "C03", "C05", "C06", "C07", "C08", "C10", "C12", "C15", "C18", "C19"],
      "kind_free_text": "closed-world run explorer: real main.main() in-process, answer "
                        "tape for randomness, shadow monitors on every event"},
 ]
